@@ -451,10 +451,20 @@ static int _yr_scan_verify_chained_string_match(
     // is the offset of the current match.
     match = context->unconfirmed_matches[matching_string->idx].head;
 
-    if (match != NULL)
+    if (match != NULL && match->offset < match_offset)
       lowest_offset = match->offset;
     else
       lowest_offset = match_offset;
+
+    // Matches are not found in ascending offset order: a match is found when
+    // the scanner reaches the end of one of the string's atoms, and the match
+    // can start up to YR_RE_SCAN_LIMIT bytes before the atom. A match found
+    // later can therefore start before the current one, but not more than
+    // YR_RE_SCAN_LIMIT + YR_MAX_ATOM_LENGTH bytes before it.
+    if (lowest_offset > YR_RE_SCAN_LIMIT + YR_MAX_ATOM_LENGTH)
+      lowest_offset -= YR_RE_SCAN_LIMIT + YR_MAX_ATOM_LENGTH;
+    else
+      lowest_offset = 0;
 
     // Iterate over the list of unconfirmed matches for the string that
     // precedes the currently matching string. If we have a string chain like:
